@@ -968,7 +968,7 @@ def run(ctx):
         ("matches", lambda: check_matches(ctx, rng.fork(), ctx.scale(120, 4000), stats, open_f)),
         ("multimodule", lambda: check_multimodule(ctx, rng.fork(), ctx.scale(12, 250), stats, open_f)),
         ("generated", lambda: check_generated(ctx, rng.fork(), ctx.scale(40, 600), stats, open_f)),
-        ("mutants", lambda: check_mutants(ctx, rng.fork(), ctx.scale(320, 12000), stats, open_f)),
+        ("mutants", lambda: check_mutants(ctx, rng.fork(), ctx.scale(320, 8000), stats, open_f)),
         ("gate", lambda: check_gate(ctx, stats)),
     ]
     for name, f in steps:
